@@ -18,6 +18,9 @@ CLAIMS = {
  "C15": (TECH,
          "Within the stated bounds (texts <= 3 chars over all unicode for the single recording step from an arbitrary accumulated state; 2-3 operation histories of run/call/evaluate/clear_output with texts <= 1 char; input queues <= 3 items) the solver shows the output/input bookkeeping oracle holds on every path; outside the bounds nothing is claimed. The inductive single-step obligation makes the raw/line-view part independent of history length.",
          "exec of student code is a stub writing a symbolic string; CrossHair's str/list models, z3, CPython; harness oracles", "DESIGN.md §3 C15"),
+ "C20": (TECH,
+         "Within the bounds (one instructor-defined feedback with every condition outcome x keyword combination; ordered pairs of core commands; 5 templates x 2 formatters; all 3-step override sequences over a class, an inheriting subclass and an unrelated class followed by clear/contextualize) CrossHair confirms over all paths the recorded-once / truthful / rendered-from-fields / restored oracle.",
+         "field values for rendering come from a 4-value menu; CrossHair/z3 models; harness oracle", "DESIGN.md §3 C20"),
 }
 NA = {
  "C06": "both sides of the equivalence are CPython executing an arbitrary program; the program text realises at compile(), so nothing is symbolic and each solver query would be one concrete differential run (enumeration, not this technique)",
